@@ -328,3 +328,51 @@ def grid_witness_self(m, p):
 
 
 GetMagnitudeIndex.witness = staticmethod(grid_witness_self)
+
+
+# ---------------------------------------------------------------------------
+# _compute_likelihood (property C10: pseudo-likelihood / spatial statistic of catalog-based tests)
+# ---------------------------------------------------------------------------
+from pyvc.lib import LOG, SUM, NAN
+
+
+def _rs(fn, n):
+    i = z3.Int('i!lam')
+    return SUM(z3.Lambda([i], to_real(fn(i))), to_z3(n))
+
+
+@contract
+class ComputeLikelihood:
+    qualname = 'csep.utils.calc._compute_likelihood'
+    case = '1-d gridded counts and rates'
+    oracle = 'compute_likelihood'
+    properties = ('C10',)
+
+    def params(c):
+        n = c.int('n')
+        c.ctx.assume(n >= 1)
+        return dict(gridded_data=c.arr('g', 'float64', n=n), apprx_rate_density=c.arr('rate', 'float64', n=n),
+                    expected_cond_count=c.real('E'), n_obs=c.real('n_obs'))
+
+    def requires(c, gridded_data, apprx_rate_density, expected_cond_count, n_obs):
+        g = gridded_data
+        i = z3.Int('i!rq')
+        return [z3.ForAll([i], z3.Implies(z3.And(0 <= i, i < g.n), g.f((i,)) >= 0), patterns=[g.f((i,))])]
+
+    def ensures(c, r, gridded_data, apprx_rate_density, expected_cond_count, n_obs):
+        g, rate, E = gridded_data, apprx_rate_density, expected_cond_count
+        n = g.n
+        yield 'returns a pair', z3.BoolVal(isinstance(r, tuple) and len(r) == 2)
+        plh, lnorm = r
+        total = _rs(lambda i: g.f((i,)), n)
+        tot_rate = _rs(lambda i: rate.f((i,)), n)
+        empty = total == 0
+        yield 'no events: (-E, nan)', z3.Implies(empty, z3.And(to_real(plh) == -E, z3.BoolVal(lnorm is NAN)))
+        ll = _rs(lambda i: z3.If(g.f((i,)) != 0, g.f((i,)) * LOG(rate.f((i,))), z3.RealVal(0)), n)
+        yield 'pseudo-likelihood == sum_{g>0} g*log(rate) - E', z3.Implies(z3.Not(empty), to_real(plh) == ll - E)
+        if lnorm is NAN:
+            yield 'nan score only when undefined (no events, n_obs = 0 or E = 0)', z3.Or(empty, n_obs == 0, E == 0)
+        else:
+            yield 'normalised score defined only with events, n_obs != 0 and E != 0', z3.And(z3.Not(empty), n_obs != 0, E != 0)
+            lln = _rs(lambda i: z3.If(g.f((i,)) != 0, g.f((i,)) * LOG(rate.f((i,)) / tot_rate), z3.RealVal(0)), n)
+            yield 'normalised score == sum_{g>0} g*log(rate/sum rate) / sum g', to_real(lnorm) * total == lln
